@@ -51,6 +51,7 @@ type Contract struct {
 	LoopDec  map[int]*Expr
 	LoopMod  map[int][]*Expr
 	Unroll   map[int]bool
+	RetAssert map[int][]Clause // "assert-at return k name: expr": intermediate assertion at the k-th return statement (source order)
 	Extra    map[string][]string
 	Fn       *ssa.Function
 }
@@ -121,7 +122,7 @@ func parseContractFile(path, pkgPath string) ([]*Contract, []*SpecFn, error) {
 		}
 		if rc.dir == "func" {
 			cur = &Contract{PkgPath: pkgPath, Key: rc.text, File: path, Line: rc.line, LoopInv: map[int][]Clause{},
-				LoopDec: map[int]*Expr{}, LoopMod: map[int][]*Expr{}, Unroll: map[int]bool{}, Extra: map[string][]string{}}
+				LoopDec: map[int]*Expr{}, LoopMod: map[int][]*Expr{}, Unroll: map[int]bool{}, RetAssert: map[int][]Clause{}, Extra: map[string][]string{}}
 			out = append(out, cur)
 			continue
 		}
@@ -173,6 +174,25 @@ func parseContractFile(path, pkgPath string) ([]*Contract, []*SpecFn, error) {
 			}
 		case "may_panic":
 			cur.MayPanic = append(cur.MayPanic, rc.text)
+		case "assert-at":
+			f := strings.Fields(rc.text)
+			if len(f) < 3 || f[0] != "return" {
+				return nil, nil, fail(fmt.Errorf("assert-at: expected 'return <k> name: expr'"))
+			}
+			k, err := strconv.Atoi(f[1])
+			if err != nil {
+				return nil, nil, fail(err)
+			}
+			rest := strings.TrimSpace(strings.TrimPrefix(strings.TrimSpace(strings.TrimPrefix(strings.TrimSpace(rc.text), f[0])), f[1]))
+			name, src := splitLabel(rest)
+			e, err := parseExpr(src)
+			if err != nil {
+				return nil, nil, fail(err)
+			}
+			if name == "" {
+				name = fmt.Sprintf("a%d", len(cur.RetAssert[k]))
+			}
+			cur.RetAssert[k] = append(cur.RetAssert[k], Clause{Name: name, E: e, Src: src, Line: rc.line})
 		case "loop":
 			f := strings.Fields(rc.text)
 			if len(f) < 2 {
